@@ -21,6 +21,8 @@ var c10First = []string{
 	`{{ import "/lib.jet" }}{{ yield wrap() content }}{{ yield wrap() content }}INNER{{ mayFail() }}{{ end }}{{ end }}`,
 	`{{ import "/lib.jet" }}{{ x := "old" }}{{ yield wrapf() content }}STALE{{ x }}{{ end }}`,
 	`{{ import "/lib.jet" }}{{ yield wrap() content }}{{ yield wrapf() content }}INNER{{ end }}{{ end }}`,
+	`{{ try }}PARTIAL{{ r }}{{ mayFail() }}{{ catch }}{{ end }}after`,
+	`{{ try }}{{ try }}INNERPARTIAL{{ mayFail() }}{{ end }}OUTER{{ fail() }}{{ end }}`,
 }
 
 // H_C10_history: Execute(A) - which fails at a symbolic point or succeeds - followed, on
@@ -33,7 +35,7 @@ var c10First = []string{
 func H_C10_history() {
 	a := ndChoice("first", len(c10First))
 	fails := ndBool("fails")
-	probe := `P[{{ . }}|{{ isset(x) }}|{{ yield content }}|{{ isset(r) }}]`
+	probe := `P[{{ . }}|{{ isset(x) }}|{{ yield content }}|{{ isset(r) }}]{{ try }}{{ end }}{{ try }}{{ try }}{{ end }}{{ end }}`
 	files := []string{
 		"/a.jet", c10First[a],
 		"/lib.jet", `{{ block wrap() }}<{{ yield content }}>{{ end }}{{ block wrapf() }}<{{ yield content }}{{ mayFail() }}>{{ end }}`,
@@ -146,9 +148,13 @@ type c10Secret struct {
 //
 //gosym:reach checked
 func H_C10_sameErrorAgain() {
-	srcs := []string{`{{ .token }}`, `{{ .Name }}{{ .token }}`, `{{ .Missing }}`, `{{ d.token }}`}
+	srcs := []string{`{{ .token }}`, `{{ .Name }}{{ .token }}`, `{{ .Missing }}`, `{{ d.token }}`,
+		// a template that exists but does not parse, reached through include / exec /
+		// includeIfExists / extends-at-run-time: the same error every time, never a panic
+		`ok{{ include "/broken.jet" }}`, `ok{{ exec("/broken.jet") }}`, `ok{{ includeIfExists("/broken.jet") }}`,
+		`ok{{ include "/extbroken.jet" }}`, `ok{{ include "/nosuch.jet" }}`}
 	c := ndChoice("src", len(srcs))
-	set := hxSet(nil, "/m.jet", srcs[c])
+	set := hxSet(nil, "/m.jet", srcs[c], "/broken.jet", `x{{ if }}y`, "/extbroken.jet", `{{ extends "/broken.jet" }}`)
 	vars := make(VarMap)
 	vars.Set("d", c10Secret{"bob", "s3cr3t"})
 	var outs [3]string
